@@ -143,7 +143,10 @@ def in_context(body, context):
     else:
         side = [{'k': 'for', 'value': 'w', 'index': None, 'vals': call('arrayNew', num(1), num(2), num(3)),
                  'b': [{'k': 'if', 'c': wf_binary('==', var('w'), num(2)), 't': [{'k': 'continue'}], 'else': None}, inc('s')]}]
-        prog = [func('fa', [{'k': 'expr', 'name': 's', 'e': num(0)}] + side + [{'k': 'ret', 'e': var('s')}]),
+        before = [{'k': 'if', 'c': var('g'), 't': [inc('g')], 'else': {'k': 'else', 'b': [inc('h')]}},
+                  {'k': 'while', 'c': wf_binary('<', var('g'), num(2)), 'b': [inc('g')]}]    # global constructs BEFORE the functions
+        prog = before + \
+               [func('fa', [{'k': 'expr', 'name': 's', 'e': num(0)}] + side + [{'k': 'ret', 'e': var('s')}]),
                 func('fb', init + body + [{'k': 'ret', 'e': var('m')}], ['p']),
                 func('fc', [{'k': 'while', 'c': wf_binary('<', var('q'), num(2)), 'b': [inc('q')]}, {'k': 'ret', 'e': var('q')}], ['q']),
                 {'k': 'expr', 'name': 'r1', 'e': call('fa')}, {'k': 'expr', 'name': 'r2', 'e': call('fb', num(1))},
@@ -415,6 +418,8 @@ def streams(ctx):
         (raw if allow_raw else plain).append((prog, sorted(gen.stats)))
     jobs = [('progs', 'random', ch, False) for ch in chunks(plain, 500)] + [('progs', 'random', ch, True) for ch in chunks(raw, 500)]
     run_jobs(ctx, st, jobs)
+    # the smallest failing input first (it becomes the replay file)
+    ctx.witnesses.sort(key=lambda w: len(w['input']['text']))
 
 
 def disagreement_known(d, known):
@@ -424,7 +429,8 @@ def disagreement_known(d, known):
 def search(ctx):
     """Something no longer checks: look for a program on which the property itself fails on the implementation (oracles only)."""
     before = len(ctx.witnesses)
-    for slots, maxd in ((False, 3), (True, 3)):
+    maxd = ctx.scale(2, 3)
+    for slots in (False, True):
         for depth in range(1, maxd + 1):
             for shape in shapes(depth, False, slots):
                 body = build(shape)
@@ -436,7 +442,7 @@ def search(ctx):
                 if len(ctx.witnesses) - before >= 20:
                     return
     rng = ctx.rng('search')
-    for _ in range(ctx.scale(2000, 20000)):
+    for _ in range(ctx.scale(1500, 20000)):
         gen = progen.Gen(rng, max_depth=rng.choice([3, 4, 5, 6, 7]))
         text = '\n'.join(progen.render(gen.program()))
         model, _ = parse_impl(text)
